@@ -39,9 +39,8 @@ class Seam:
         self.env_keys = None
         self.on_call = None
 
-    # ---- the subprocess.call replacement ------------------------------
-    def call(self, args, stdin=None, stdout=None, stderr=None, env=None,
-             timeout=None, shell=False, cwd=None, **kw):
+    # ---- the subprocess replacement: Popen / call / run with the same surface --------------------
+    def _start(self, args, stdin, stdout, stderr, env, shell, cwd, timeout, kw):
         name = _program_name(args)
         stdin_text = _read_stdin(stdin)
         try:
@@ -65,37 +64,42 @@ class Seam:
         self.calls.append(rec)
         if self.on_call is not None:
             self.on_call(rec)
+        return rec, stdin_text
+
+    def Popen(self, args, stdin=None, stdout=None, stderr=None, env=None, shell=False, cwd=None, **kw):
         if self.real:
+            rec, stdin_text = self._start(args, stdin, stdout, stderr, env, shell, cwd, 'popen', kw)
+            return _real_subprocess.Popen(args, stdin=_as_real_stdin(stdin_text), stdout=stdout, stderr=stderr, env=env,
+                                          shell=shell, cwd=cwd, **kw)
+        return _VPopen(self, args, stdin, stdout, stderr, env, shell, cwd, 'popen', kw)
+
+    def call(self, args, stdin=None, stdout=None, stderr=None, env=None,
+             timeout=None, shell=False, cwd=None, **kw):
+        if self.real:
+            rec, stdin_text = self._start(args, stdin, stdout, stderr, env, shell, cwd, timeout, kw)
             return self._real_call(rec, args, stdin_text, stdout, stderr, env, timeout, shell, cwd)
-        beh = self.script.get(name, self.default)
-        if callable(beh):
-            beh = beh(rec)
-        if beh.get('oserror'):
-            raise FileNotFoundError(2, 'No such file or directory', str(args))
-        dur = beh.get('dur', 0)
-        if timeout is not None and dur > timeout:
-            # the child is killed when the timeout expires; what it wrote before is kept
-            _write(stdout, beh.get('out_before_timeout', ''))
-            self.clock += timeout
-            rec['timed_out'] = True
-            raise _real_subprocess.TimeoutExpired(args, timeout)
-        if dur == INF:
-            rec['hang'] = True
-            raise VirtualHang('child %r of infinite duration started with timeout=None' % (name,))
-        self.clock += dur
-        out = beh.get('out', '')
-        if beh.get('stdin_to_out') and stdin_text is not None:
-            out = out + stdin_text
-        if beh.get('echo_args') and not isinstance(args, str):
-            out = out + '\n'.join(args[1:]) + '\n'
-        _write(stdout, out)
-        _write(stderr, beh.get('err', ''))
-        fn = beh.get('fn')
-        if fn is not None:
-            r = fn(rec)
-            if r is not None:
-                return r
-        return beh.get('exit', 0)
+        p = _VPopen(self, args, stdin, stdout, stderr, env, shell, cwd, timeout, kw)
+        try:
+            return p.wait(timeout=timeout)
+        except _real_subprocess.TimeoutExpired:
+            p.kill()  # as subprocess.call does
+            p.wait()
+            raise
+
+    def run(self, args, stdin=None, input=None, stdout=None, stderr=None, capture_output=False, env=None,
+            timeout=None, shell=False, cwd=None, check=False, **kw):
+        if capture_output:
+            stdout = stderr = _real_subprocess.PIPE
+        p = _VPopen(self, args, stdin, stdout, stderr, env, shell, cwd, timeout, kw)
+        try:
+            out, err = p.communicate(input=input, timeout=timeout)
+        except _real_subprocess.TimeoutExpired:
+            p.kill()
+            p.wait()
+            raise
+        if check and p.returncode:
+            raise _real_subprocess.CalledProcessError(p.returncode, args, out, err)
+        return _real_subprocess.CompletedProcess(args, p.returncode, out, err)
 
     def _project(self, env):
         if env is None:
@@ -115,6 +119,118 @@ class Seam:
                 sin = _real_subprocess.DEVNULL
             return _real_subprocess.call(args, stdin=sin, stdout=stdout, stderr=stderr, env=env,
                                          timeout=timeout, shell=shell, cwd=cwd)
+
+
+def _as_real_stdin(stdin_text):
+    if stdin_text is None:
+        return _real_subprocess.DEVNULL
+    import tempfile
+    f = tempfile.TemporaryFile('w+')
+    f.write(stdin_text)
+    f.seek(0)
+    return f
+
+
+class _VPopen:
+    """A virtual child process under the virtual clock.  Behaviour keys: out, err, exit, dur, oserror, stdin_to_out,
+    echo_args, fn, ignore_term (SIGTERM has no effect), out_before_timeout."""
+    _next_pid = [100000]
+
+    def __init__(self, seam, args, stdin, stdout, stderr, env, shell, cwd, timeout, kw):
+        self.seam = seam
+        self.args = args
+        self.rec, self.stdin_text = seam._start(args, stdin, stdout, stderr, env, shell, cwd, timeout, kw)
+        beh = seam.script.get(self.rec['name'], seam.default)
+        if callable(beh):
+            beh = beh(self.rec)
+        self.beh = beh
+        if beh.get('oserror'):
+            raise FileNotFoundError(2, 'No such file or directory', str(args))
+        self._stdout, self._stderr = stdout, stderr
+        self._remaining = beh.get('dur', 0)
+        self.returncode = None
+        _VPopen._next_pid[0] += 1
+        self.pid = _VPopen._next_pid[0]
+        self.stdin = self.stdout = self.stderr = None
+        self._captured = ['', '']
+        self._text = bool(kw.get('text') or kw.get('universal_newlines') or kw.get('encoding'))
+
+    def __enter__(self):
+        return self
+
+    def __exit__(self, exc_type, value, tb):
+        self.wait()  # as subprocess.Popen.__exit__: waits without limit
+
+    def poll(self):
+        return self.returncode
+
+    def wait(self, timeout=None):
+        if self.returncode is not None:
+            return self.returncode
+        if self.rec['timeout'] == 'popen':
+            self.rec['timeout'] = timeout  # the limit of the first wait is the timeout the process runs under
+        if timeout is not None and self._remaining > timeout:
+            self.seam.clock += timeout
+            if self._remaining != INF:
+                self._remaining -= timeout
+            self.rec['timed_out'] = True
+            raise _real_subprocess.TimeoutExpired(self.args, timeout)
+        if self._remaining == INF:
+            self.rec['hang'] = True
+            raise VirtualHang('waiting without limit for child %r, which never ends' % (self.rec['name'],))
+        self.seam.clock += self._remaining
+        self._remaining = 0
+        self._finish()
+        return self.returncode
+
+    def _finish(self):
+        beh, rec = self.beh, self.rec
+        out = beh.get('out', '')
+        if beh.get('stdin_to_out') and self.stdin_text is not None:
+            out = out + self.stdin_text
+        if beh.get('echo_args') and not isinstance(self.args, str):
+            out = out + '\n'.join(self.args[1:]) + '\n'
+        self._emit(0, self._stdout, out)
+        self._emit(1, self._stderr, beh.get('err', ''))
+        self.returncode = beh.get('exit', 0)
+        fn = beh.get('fn')
+        if fn is not None:
+            r = fn(rec)
+            if r is not None:
+                self.returncode = r
+
+    def _emit(self, i, handle, text):
+        if handle == _real_subprocess.PIPE:
+            self._captured[i] += text
+        elif handle == _real_subprocess.STDOUT and i == 1:
+            self._emit(0, self._stdout, text)
+        else:
+            _write(handle, text)
+
+    def communicate(self, input=None, timeout=None):
+        self.wait(timeout=timeout)
+        conv = (lambda x: x) if self._text else (lambda x: x.encode('utf-8'))
+        return (conv(self._captured[0]) if self._stdout == _real_subprocess.PIPE else None,
+                conv(self._captured[1]) if self._stderr == _real_subprocess.PIPE else None)
+
+    def _die(self, code):
+        if self.returncode is None:
+            self._emit(0, self._stdout, self.beh.get('out_before_timeout', ''))
+            self.returncode = code
+            self._remaining = 0
+            self.rec['killed'] = code
+
+    def terminate(self):
+        self.send_signal(15)
+
+    def kill(self):
+        self.send_signal(9)
+
+    def send_signal(self, sig):
+        if sig == 15 and self.beh.get('ignore_term'):
+            self.rec['sigterm_ignored'] = True
+            return
+        self._die(-sig)
 
 
 def _program_name(args):
@@ -202,7 +318,10 @@ def install() -> Seam:
     global _installed
     from exactly_lib.util.process_execution import process_executor as pe
     from exactly_lib.processing import preprocessor as pp
-    shim = types.SimpleNamespace(call=SEAM.call,
+    shim = types.SimpleNamespace(call=SEAM.call, Popen=SEAM.Popen, run=SEAM.run,
+                                 CalledProcessError=_real_subprocess.CalledProcessError,
+                                 CompletedProcess=_real_subprocess.CompletedProcess,
+                                 SubprocessError=_real_subprocess.SubprocessError,
                                  TimeoutExpired=_real_subprocess.TimeoutExpired,
                                  DEVNULL=_real_subprocess.DEVNULL,
                                  PIPE=_real_subprocess.PIPE,
